@@ -63,8 +63,6 @@ structure MiniTxState where
   cur : List Bytes := []     -- chunks sitting in `_outputPacketBuffer`
   id : Nat := 0
   queue : List Bytes := []
-  /-- the header of the held packet was patched to "level 0" after a deflate that did not pay off -/
-  patched : Bool := false
 
 /-- "Step 1" for one packet -/
 def miniFill (ph ch mtu : Nat) : List Bytes → List Bytes → List Bytes × List Bytes
